@@ -29,10 +29,14 @@ CHECKS = {
    design="5/C05", technique="TLA+ state machine of normalize() + TLC over all schedules + trace validation of hook-recorded normalisations"),
  "C06": dict(text="Abstract specification P_C06 (per system and step conservation of auxiliary energy, no negative share, proportionality to |Q|) checked by TLC on the normalisation state machine over all schedules (MC_Comp, 1-3 systems) and on every recorded normalisation and evaluation of the real library (Parse and Eval events).",
    design="5/C06", technique="TLA+ abstract spec P_C06 + TLC over all schedules + trace validation of Parse/Eval events"),
+ "C07": dict(text="The exponential family of factor files is enumerated completely by TLC: every subset of a universe of candidate lines (all values distinct) x user RED1/RED2 given or not, plus a duplicated-key variant and the four locations. TLC checks respect of user values, provenance of export defaults, precedence, idempotence, rejection and completeness (every look-up of every building shape satisfied) on spec/Factors.tla, and every file is prepared by the real library and judged by TLC on (file, prepared list); building shapes are evaluated with the prepared sets and the Find hook binds Balance!NeededKeys to the code.",
+   design="5/C07", technique="TLA+ Factors spec + TLC over all subsets of factor lines + trace validation of Prepare/Eval events"),
  "C08": dict(text="Session histories Evaluate(full) ; Strip ; Evaluate(stripped): TLC checks on the specification that Factors!Strip keeps every key an evaluation looks up (MC_C02!CheckStrip) and, on traces of the real library, that outcome and every field are unchanged and nothing panics." + BOTH,
    design="5/C08", technique="TLA+ Factors!Strip + TLC invariant CheckStrip + trace validation of full/stripped histories"),
  "C09": dict(text="Session transforms Permute / Subdivide: checked exactly on the specification for all permutations and m in {2,3} (MC_C09!CheckLayout); on the real library the transformed input is bound to the specification's transform and annual fields / per-step vectors are compared by TLC." + BOTH,
    design="5/C09", technique="TLA+ Session transforms + TLC invariant CheckLayout + trace validation of layout histories"),
+ "C10": dict(text="TextFormat.tla models a file at token level with the rewriting actions of the property; TLC explores every rewriting sequence up to depth 2 (3) from four base files and checks that the declaration (Denote) and the normalised declaration are preserved; every reachable file is written, parsed and evaluated by the real code and TLC compares each evaluation with its base. The schedule part (hash iteration orders) is MC_Comp!Confluent over all id orders at model level and repeated parse+evaluate runs whose orders are recorded by the hooks.",
+   design="5/C10", technique="TLA+ token-level file model + TLC over rewriting sequences + trace validation of rewritten / repeated evaluations"),
  "C11": dict(text="Session transforms Scale(c) / SetArea: homogeneity checked exactly on the specification (MC_C09!CheckLayout, integer scalings) and, on traces of the real library logged in units of c, as equality of every energy path, invariance of ratios, f_match and the DHW fraction." + BOTH,
    design="5/C11", technique="TLA+ Session transforms + TLC invariant (ScaleInt) + trace validation of scaled histories"),
  "C12": dict(text="Abstract specification P_C12 (priority of on-site over cogenerated electricity, formula (32), effect of load matching) checked by TLC on the specification (MC_C02!CheckPrio) and on two-evaluation histories (load matching off/on) of the real library." + BOTH,
